@@ -4,8 +4,11 @@
 // redis, tiered).
 //
 // Events are the session layer's own: AcceptConnection, the two-phase control handshake
-// (HandlePacket -> handleHandshake), heartbeat packets (handleHeartbeat) and CloseConnection; the
-// connstate calls are whatever the real SessionManager makes.  After every event the driver asks
+// (HandlePacket -> handleHandshake), the same handshake with a transport that dies at the write of
+// the final response (AuthLost), heartbeat packets (handleHeartbeat) and the end of a connection by
+// cause - read loop ended, Disconnect command, KickOldControlConnection, stale sweep after a
+// heartbeat timeout - each ending in CloseConnection; the connstate calls are whatever the real
+// SessionManager makes.  After every event the driver asks
 // every node's connstate.Store.FindClientNode for every client and records the routing decision
 // of SessionManager.SendCommandToClient; spec/ConnStateTrace.tla judges them.
 package main
